@@ -29,7 +29,6 @@ case "${1:-}" in
             *) build "" rt-tokio || exit 2; exec /verif/.target/release/mc replay "$2" ;;
         esac ;;
     selftest) build "" rt-tokio || exit 2; exec /verif/.target/release/mc selftest ;;
-    C19) shift; exec /verif/typecat/check.sh "${1:-${VERIF_TIER:-quick}}" ;;
     C18)
         tier="${2:-${VERIF_TIER:-quick}}"
         build "" rt-tokio || exit 2
